@@ -16,7 +16,7 @@ import (
 // block glue (RebuildMerkleRoot / Deserialization root check).
 //
 //	root <h1> ... <hn>        -> root hex           (n may be 0)
-//	blockroot <n> <nonce0>    -> "ok" when the rebuilt block root equals the reference root of the transaction
+//	blockroot <n> <nonce0> [i j] (transaction j repeats transaction i) -> "ok" when the rebuilt block root equals the reference root of the transaction
 //	                             hashes in block order, the block round-trips, and a flipped root is refused
 type btcroot struct{}
 
@@ -69,13 +69,22 @@ func (f *btcroot) Exec(r *hx.Run, op []string) string {
 		return hx.Hex(got[:])
 	case "blockroot":
 		var n, nonce int
+		di, dj := -1, -1
 		fmt.Sscan(op[1], &n)
 		fmt.Sscan(op[2], &nonce)
+		if len(op) >= 5 {
+			fmt.Sscan(op[3], &di)
+			fmt.Sscan(op[4], &dj)
+		}
 		blk := &types.Block{Header: &types.Header{}}
 		var hashes []common.Uint256
 		for i := 0; i < n; i++ {
-			tx := &types.Transaction{Version: 0, TxType: types.Invoke, Nonce: uint32(nonce + i),
-				Payload: &payload.InvokeCode{Code: []byte{byte(i), byte(i >> 8), 1, 2, 3}}}
+			k := i
+			if i == dj && di >= 0 && di < n {
+				k = di // transaction j repeats transaction i (same bytes, same hash)
+			}
+			tx := &types.Transaction{Version: 0, TxType: types.Invoke, Nonce: uint32(nonce + k),
+				Payload: &payload.InvokeCode{Code: []byte{byte(k), byte(k >> 8), 1, 2, 3}}}
 			sink := common.NewZeroCopySink(nil)
 			if err := tx.Serialization(sink); err != nil {
 				return "err-ser"
@@ -98,6 +107,17 @@ func (f *btcroot) Exec(r *hx.Run, op []string) string {
 		}
 		raw := blk.ToArray()
 		var back types.Block
+		if di >= 0 && di < n && dj < n && di != dj {
+			// a block that repeats a transaction: the rebuilt root still covers every hash in block order
+			// (checked above); decoding such a block is refused
+			if err := back.Deserialization(common.NewZeroCopySource(raw)); err != nil {
+				res = append(res, "dup-rejected")
+			} else {
+				res = append(res, "dup-ACCEPTED")
+				r.Viol(fmt.Sprintf("C03:block-duplicate-accepted:n=%d", n), "a block repeating a transaction was decoded without error")
+			}
+			return strings.Join(res, " ")
+		}
 		if err := back.Deserialization(common.NewZeroCopySource(raw)); err == nil && bytes.Equal(back.ToArray(), raw) {
 			res = append(res, "deser-ok")
 		} else {
@@ -175,6 +195,13 @@ func (f *btcroot) Gen(r *hx.Run) {
 		r.Do(fmt.Sprintf("blockroot %d %d", n, r.Rng.Intn(1<<30)))
 		if n >= 2 {
 			r.Nontrivial(fmt.Sprintf("block/%d", n))
+			// repeated transactions: first/last/adjacent/random positions
+			for _, pr := range [][2]int{{0, n - 1}, {0, 1}, {n - 2, n - 1}, {r.Rng.Intn(n), r.Rng.Intn(n)}} {
+				if pr[0] != pr[1] {
+					r.Do(fmt.Sprintf("blockroot %d %d %d %d", n, r.Rng.Intn(1<<30), pr[0], pr[1]))
+					r.Nontrivial(fmt.Sprintf("blockdup/%d/%d/%d", n, pr[0], pr[1]))
+				}
+			}
 		}
 	}
 }
